@@ -20,8 +20,19 @@ ALL = [f"C{i:02d}" for i in range(1, 18)]
 ENV = dict(os.environ, CARGO_NET_OFFLINE="true", VERIF_ROOT=ROOT)
 
 def sh(cmd, cwd=None, timeout=3600):
-    r = subprocess.run(cmd, shell=True, cwd=cwd, env=ENV, stdout=subprocess.PIPE, stderr=subprocess.STDOUT, text=True, timeout=timeout)
-    return r.returncode, r.stdout
+    # own process group, so that a timeout kills the whole pipeline (not only the shell)
+    p = subprocess.Popen(cmd, shell=True, cwd=cwd, env=ENV, stdout=subprocess.PIPE, stderr=subprocess.STDOUT, text=True, start_new_session=True)
+    try:
+        out, _ = p.communicate(timeout=timeout)
+        return p.returncode, out
+    except subprocess.TimeoutExpired:
+        import signal
+        try:
+            os.killpg(p.pid, signal.SIGKILL)
+        except ProcessLookupError:
+            pass
+        p.communicate()
+        raise
 
 def setup():
     os.makedirs(SCR, exist_ok=True)
